@@ -32,13 +32,13 @@ def map_cases(draw, ml):
         if rel == 'same':
             r = t
         elif rel == 'suffix':
-            r = gen.substitute_leaves(draw, t, sub, at_least_one=True)
+            r = gen.substitute_leaves(draw, t, sub, at_least_one=True, none_too=draw(st.booleans()))
         elif rel == 'dict_variant':
             r = gen.dict_variant(draw, t)
         elif rel == 'suffix_variant':
-            r = gen.dict_variant(draw, gen.substitute_leaves(draw, t, sub, at_least_one=True))
+            r = gen.dict_variant(draw, gen.substitute_leaves(draw, t, sub, at_least_one=True, none_too=draw(st.booleans())))
         else:
-            r, e = gen.near_miss(draw, gen.substitute_leaves(draw, t, sub) if draw(st.booleans()) else t)
+            r, e = gen.near_miss(draw, gen.substitute_leaves(draw, t, sub, none_too=draw(st.booleans())) if draw(st.booleans()) else t)
             rel = f'near_miss:{e}'
         rests.append(r)
         rels.append(rel)
